@@ -210,7 +210,7 @@ PROPS = {
         "nontrivial": "features",
         "level_text": "Stored-byte faults on valid artefacts. Four fifths of the runs are a complete sweep: six small artefacts (.xz one "
                       "Block CRC32; three Blocks incl. an empty one, delta+LZMA2, SHA-256; two Streams with Stream Padding, CRC64; "
-                      ".xz without check; .lzma; two-member .lz v1+v0) x every single-bit flip and every truncation length x four "
+                      ".xz without check; .lzma; two-member .lz v1+v0) x every single-bit flip, every truncation length and every CRC-consistent rewrite of a non-payload field (check id in Stream Header or Footer, Backward Size, Block Header size fields +-1, Index record sizes +-1, swapped Index records - each with its CRC32 recomputed) x four "
                       "decoder variants (stream with and without LZMA_CONCATENATED, threaded, auto) x three delivery schedules; the "
                       "sweep index runs over consecutive values, so 14 000 runs cover every (artefact, bit or length) once per "
                       "decoder variant. One fifth are seeded multi-byte faults (flip, overwrite, insert, delete, truncate, "
@@ -226,6 +226,35 @@ PROPS = {
         "rule": "One evaluation = one damaged artefact decoded once. distinct_nontrivial = distinct (artefact, decoder, fault position/"
                 "bit or truncation length) tuples of the sweep plus distinct plans of the seeded part.",
         "assumptions": ["LZMA_IGNORE_CHECK is never set", "sweep artefacts are <= 420 bytes"],
+        "real": LZ_REAL, "stub": LZ_STUB,
+    },
+
+    "C04": {
+        "level": "exploration",
+        "legs": {
+            "quick": [{"flavour": "asan", "runs": 50000, "seconds": 160}],
+            "thorough": [{"flavour": "asan", "runs": 800000, "seconds": 1500},
+                         {"flavour": "tsan", "runs": 20000, "seconds": 300}],
+        },
+        "nontrivial": "features",
+        "level_text": "Sixteen decoding/parsing entry points (stream, threaded stream under the deterministic scheduler, auto, .lzma, "
+                      ".lz, MicroLZMA with hostile size parameters, raw, Block, Index, file-info with a simulated seekable file, "
+                      "Block Header, Stream Header/Footer, filter flags and properties, filter strings, the single-call buffer "
+                      "decoders, index hash) are fed artefacts matching the entry point with 0-4 stored-byte faults, every file of "
+                      "tests/files with faults, valid prefixes with random tails and raw random bytes; delivery is seeded (1-byte, "
+                      "random with empty calls, one-shot), memory limits from 1 byte to unlimited, and in half of the runs the "
+                      "client stalls at a seeded call (no more input, no more output space, or neither). Oracles: ASan + UBSan + "
+                      "enabled assert() + exact-size heap copies of every buffer and header; allocator balance after lzma_end; "
+                      "only documented status codes; out-parameters not left set on failure; a stalled client gets LZMA_BUF_ERROR "
+                      "or a terminal status within 2 calls (single-threaded) / within the fair-phase budget (threaded); per-run "
+                      "call and step budgets and a 180 s watchdog for loops inside one call; no deadlock.",
+        "level_note": "Mostly fault-aimed fuzzing; the simulation-specific parts are the stall/liveness oracle, the memory limits and "
+                      "the threaded decoder. MSan is not usable for the whole library here (DESIGN.md section 9): allocations are "
+                      "poison-filled instead so that reads of uninitialised memory give stable garbage that the comparison "
+                      "oracles of C06/C07 would see.",
+        "rule": "One evaluation = one entry point fed one hostile input under one delivery/stall plan. distinct_nontrivial = "
+                "distinct plans (entry point, data source, faults, delivery, stall).",
+        "assumptions": ["inputs <= 15 KB generated / <= 300 KB from tests/files"],
         "real": LZ_REAL, "stub": LZ_STUB,
     },
 }
